@@ -11,7 +11,9 @@ EXPLANATION = ('Static rule set over the MIR event graphs of every Observer impl
                'E1 is_finished forwards to the downstream observer on every path (constant only on the empty-slot path); '
                'E2 every producer loop / repeating task consults is_finished before each next; '
                'E3 RepeatTask::poll returns Ready without re-arming when the task declines; '
-               'E4 a terminal sent from inside next() is sent on a value take()n out of the slot. '
+               'E4 a terminal sent from inside next() is sent on a value take()n out of the slot; '
+               'E5 a stream-driving task consults is_finished between an emission and the next suspension (Pending), so a stream '
+               'ended from inside next() retires the task even when the inner stream stays quiet. '
                'Decides the retirement protocol per impl; does not decide timing ("within one period").')
 ASSUMPTIONS = ['leaf observers (role table) are the ends of a pipeline and may answer is_finished locally']
 
@@ -21,6 +23,7 @@ CONTROLS = [
     'E2|<verif_controls::EagerIter<I> as Observable>::actual_subscribe',
     'E2|verif_controls::eager_tick',
     'E4|<verif_controls::CompleteInNext<O> as Observer>::next',
+    'E5|<verif_controls::LateCheckDriver<S, O> as Future>::poll',
 ]
 CONTROLS_OK = [
     'E1|<verif_controls::GoodForwardObserver<O> as Observer>::is_finished',
@@ -33,6 +36,7 @@ def check(cx):
     out += e2(cx)
     out += e3(cx)
     out += e4(cx)
+    out += e5(cx)
     return out
 
 
@@ -253,4 +257,56 @@ def e4(cx):
             res.append(Finding(ID, 'E4', label, True, 'terminals sent from next() consume a taken slot value', fn['span']))
     if not cx.control and n_sites < roles.FLOORS['C16.E4.sites']:
         res.append(Finding(ID, 'E4', 'floor', False, 'only %d terminal-in-next sites, expected >= %d' % (n_sites, roles.FLOORS['C16.E4.sites'])))
+    return res
+
+
+# ---------------------------------------------------------------- E5
+def _is_pending(e):
+    e = strip(e)
+    return e[0] == 'agg' and e[2].endswith('Poll::Pending')
+
+
+def e5(cx):
+    """a task that relays an external stream/future: after handing an item downstream it must look at is_finished
+    before it suspends, because once the downstream ended the stream nobody else will wake or cancel it"""
+    F = cx.facts
+    res = []
+    n = 0
+    for im in F.impls.values():
+        tr = im.get('trait')
+        meth = {'futures::Future': 'poll'}.get(tr)
+        if not meth:
+            continue
+        fn = F.impl_fn(im, meth)
+        if fn is None:
+            continue
+        g = cx.graph(fn['key'])
+        polls = [x for x in g.nodes if x['kind'] == 'call' and x['name'].rsplit('::', 1)[-1] in ('poll_next', 'try_poll_next', 'poll_next_unpin')]
+        if not polls or not any(down_method(x) == 'next' for x in g.nodes):
+            continue
+        n += 1
+        label = cx.label(fn)
+        isfin = lambda nd: nd['kind'] in ('call', 'enter') and OBS_METHODS.get(nd['name']) == 'is_finished'
+
+        def step(st, nd, lab):
+            if st == 'BAD':
+                return None
+            if down_method(nd) == 'next':
+                return 'emitted'
+            if isfin(nd):
+                return 'checked'
+            if nd['kind'] == 'assign' and not nd['ctx'] and nd['lhs'][0] == 'local' and nd['lhs'][1] == 0 and _is_pending(nd['rhs']) and st == 'emitted':
+                return 'BAD'
+            return st
+        reached, pred = explore(g, 'start', step)
+        bad = [k for k in reached if k[1] == 'BAD']
+        if bad:
+            res.append(Finding(ID, 'E5', label, False,
+                               'after handing an item downstream the task can suspend (Pending) without having consulted is_finished: '
+                               'if that item made the downstream end the stream and the inner stream stays quiet, the task is never retired',
+                               fn['span'], witness(g, pred, bad[0], interesting_default)))
+        else:
+            res.append(Finding(ID, 'E5', label, True, 'is_finished is consulted between every emission and the next suspension', fn['span']))
+    if not cx.control and n < 2:
+        res.append(Finding(ID, 'E5', 'floor', False, 'expected the two stream driver futures, found %d' % n))
     return res
